@@ -180,7 +180,7 @@ def run(ctx):
     for o in obs:
         hist.setdefault((o["run"], o["mode"]), []).append(o)
     keys = sorted(hist)
-    singles = [k for k in keys if k[1] in ("single", "blob", "range")]
+    singles = [k for k in keys if k[1] in ("single", "blob", "range", "idkinds")]
     groups = [k for k in keys if k[1] == "group"]
 
     new, corr_ok = 0, True
